@@ -26,7 +26,7 @@ def outcome(fn, *args):
         return ("ok", repr(fn(*args)))
     except TypeError as e:
         s = str(e)
-        return ("ambiguous",) if s.startswith("Ambiguous") else ("nomethod",) if s.startswith("No method") else ("typeerror", s.split("() ", 1)[-1][:80])
+        return ("ambiguous",) if __import__("_errs").amb(s) else ("nomethod",) if __import__("_errs").nomethod(s) else ("typeerror", s.split("() ", 1)[-1][:80])
     except Exception as e:
         return ("error", type(e).__name__, str(e)[:80])
 
